@@ -17,6 +17,7 @@ import (
 	_ "verif/props/c12"
 	_ "verif/props/c13"
 	_ "verif/props/c14"
+	_ "verif/props/c15"
 	_ "verif/props/c16"
 	_ "verif/props/c17"
 	_ "verif/props/c19"
